@@ -220,8 +220,7 @@ that is not a truncated series: for ALL elements the cached `a0` (index 2 of `sg
 theorem beta_a0_reference (i0 Ω0 e0 ω0 M0 n0 bstar : ℝ) :
     (sgp4Init i0 Ω0 e0 ω0 M0 n0 bstar).getD 2 0
       = Real.rpow (g_k_e / (sgp4Init i0 Ω0 e0 ω0 M0 n0 bstar).getD 3 0) (2 / 3) := by
-  unfold sgp4Init
-  simp only [List.getD_cons_succ, List.getD_cons_zero]
+  simp only [sgp4Init, sgp4InitKozai, sgp4InitS, sgp4InitDrag, sgp4InitEcc, sgp4InitD, sgp4InitDot, List.getD_cons_succ, List.getD_cons_zero]
 
 /-- … hence Kepler's third law in the reference's units, `n0''·a0^(3/2) = k_e`, whenever `n0''` is positive -/
 theorem beta_a0_kepler_law (i0 Ω0 e0 ω0 M0 n0 bstar : ℝ) (hn : 0 < (sgp4Init i0 Ω0 e0 ω0 M0 n0 bstar).getD 3 0) :
